@@ -61,7 +61,8 @@ Proof. exact connect_failure_status_proof. Qed.
 
 (** 3. no_truncated_as_complete: a relayed response is reported complete only
     if the backend ended it cleanly; the clean flag is raised only by a clean
-    end of message or by EOF on a close-delimited body; and a backend lost
+    end of message, by EOF on a close-delimited body, or when the bytes that came behind an
+    interim response in one segment with the backend's FIN are parsed; and a backend lost
     mid-body under keep-alive framing yields an abort with phase Error, or - when
     nothing of the response was forwarded yet - a default answer; never a relay end. *)
 Theorem no_truncated_as_complete :
@@ -69,7 +70,8 @@ Theorem no_truncated_as_complete :
     let x := run_st redir (fresh, init_conn h2) history in
     (existsb is_relay_end (evs redir x i) = true -> s_clean (fst x) = true) /\
     (s_clean (fst (nxt redir x i)) = true -> s_clean (fst x) = false ->
-       i = IBackEnd \/ (i = IBackClose /\ s_ka (fst x) = false)) /\
+       i = IBackEnd \/ (i = IBackClose /\ s_ka (fst x) = false) \/
+       (i = IFrontWrite true /\ interim_behind (s_interim (fst x)) = true)) /\
     (i = IBackClose -> s_state (fst x) = SLinked -> s_ka (fst x) = true -> c_closed (snd x) = false ->
        (s_phase (fst x) = PBody \/ s_phase (fst x) = PChunks \/ s_phase (fst x) = PTrailers) ->
        existsb is_relay_end (evs redir x i) = false /\
@@ -127,6 +129,28 @@ Theorem no_cross_request_bytes :
     let x := run_st redir (fresh, init_conn h2) history in
     existsb is_crosstalk (evs redir x i) = false /\ c_bdirty (snd (nxt redir x i)) = false.
 Proof. exact no_cross_request_bytes_proof. Qed.
+
+(** An HTTP/1.1 backend that sends an interim response (100 / 103), its complete final response and
+    its FIN in ONE segment (the parser stops after the interim; the rest sits unparsed behind it):
+    along every history the segment itself produces no default answer and no abort — the lost
+    backend is not closed over a response that is complete in the buffer —, the close that follows
+    is a no-op, and once the frontend has written the interim (queue armed) the response buffer
+    holds the backend's own, cleanly terminated response: the client gets the interim, then that
+    response, never a 502. *)
+Theorem interim_final_and_close_in_one_segment :
+  forall (redir : option N) (h2 : bool) (history : list input) (hints : bool),
+    let x := run_st redir (fresh, init_conn h2) history in
+    existsb is_default (evs redir x (IBackBurst hints)) = false /\
+    existsb is_abort (evs redir x (IBackBurst hints)) = false /\
+    (interim_behind (s_interim (fst x)) = true ->
+     evs redir x IBackClose = [] /\
+     (armed (snd x) = true -> s_pending (fst x) = true -> c_closed (snd x) = false ->
+      let y := nxt redir x (IFrontWrite true) in
+      existsb is_interim_ev (evs redir x (IFrontWrite true)) = true /\
+      existsb is_default (evs redir x (IFrontWrite true)) = false /\
+      existsb is_abort (evs redir x (IFrontWrite true)) = false /\
+      s_origin (fst y) = OBackend /\ is_terminated (s_phase (fst y)) = true /\ s_clean (fst y) = true)).
+Proof. exact burst_proof. Qed.
 
 (** 4. bounded_wait (invariant form): after any history a live session has its
     frontend timer armed, and whatever is queued and sendable has WRITABLE armed
@@ -192,5 +216,11 @@ Example one_answer_nonvacuous :
      = [EvRelayStart; EvCancelled; EvRecycle]
   /\ run gen_tables None (fresh, init_conn false)
       [IReqHead; IConnect None; IReqSent; IBackNoKeepAlive; IBackHead; IBackClose; IFrontWrite true]
-     = [EvRelayStart; EvRelayEnd; EvClose].
+     = [EvRelayStart; EvRelayEnd; EvClose]
+  /\ run gen_tables None (fresh, init_conn false)
+      [IReqHead; IConnect None; IReqSent; IBackBurst true; IBackClose; IFrontWrite true; IFrontWrite true]
+     = [EvInterim; EvRelayStart; EvRelayEnd; EvClose]
+  /\ run gen_tables None (fresh, init_conn true)
+      [IReqHead; IConnect None; IReqSent; IBackBurst false; IFrontWrite true; IFrontWrite true]
+     = [EvInterim; EvRelayStart; EvRelayEnd; EvRecycle].
 Proof. vm_compute. repeat split; reflexivity. Qed.
